@@ -286,6 +286,19 @@ def detection_case(obs, rng, ctx, spec, pending):
     conv = spec['convention']
     model = fresh.build_model(ctx.seed, 'C11', spec['case'], conv)
     ds = model.encode()
+    if rng.random() < 0.3:
+        # a dataset opened from a file: every near-miss derived from it below still names the same file in
+        # encoding['source'] (copy / drop_vars keep it) - detection must depend on the content, not on where it came from
+        import os
+        import tempfile
+        import xarray
+        fd, path = tempfile.mkstemp(suffix='.nc', dir=ctx.workdir)
+        os.close(fd)
+        ds.to_netcdf(path)
+        ds = xarray.open_dataset(path)
+        ds.load()
+        obs.cls('detect:opened-from-file')
+        spec['source'] = 'file'
     reference = ds.copy(deep=True)
     spec['encoding'] = {k: v for k, v in model.encoding.items() if k in ('coord_style', 'ident', 'bounds', 'lat_name', 'ydim', 'supplied')}
     obs.cls('detect:' + conv)
